@@ -1,4 +1,11 @@
 #!/usr/bin/env python3
-"""Regenerates lean/MQ/Gen/*.lean from /repo's current sources (run on every check)."""
-import sys
-sys.exit(0)
+"""Regenerates lean/MQ/Gen/*.lean (and the probe's main.rs) from /repo's current sources; run on every check."""
+import os, subprocess, sys
+here = os.path.dirname(os.path.abspath(__file__))
+rc = subprocess.call([sys.executable, os.path.join(here, "traits.py")])
+if rc != 0:
+    sys.exit(rc)
+arith = os.path.join(here, "arith.py")
+if os.path.exists(arith):
+    rc = subprocess.call([sys.executable, arith])
+sys.exit(rc)
